@@ -37,6 +37,11 @@ def draw_fields(r, form, nmax=8, simple=False, allow_mixed=True):
             nm = pick(r, UNI_NAMES) + str(i)
         else:
             nm = "f%d" % i
+        if names and chance(r, 0.06) and not simple:
+            # a name that differs from an earlier one only in the case of its letters (z / Z): distinct fields
+            alt = names[r.randrange(len(names))].swapcase()
+            if alt not in names:
+                nm = alt
         if nm in names:
             nm = nm + "_%d" % i
         names.append(nm)
@@ -58,6 +63,30 @@ def draw_fields(r, form, nmax=8, simple=False, allow_mixed=True):
         prof = "simple" if simple else wpick(r, [("edge", 3), ("wide", 3), ("simple", 1)])
         out.append({"n": nm, "t": t, "s": shape, "o": o, "p": prof})
     return out
+
+
+def draw_fields_pow2(r, form):
+    """Fields whose row is exactly 2**m bytes (binary) or 2**m characters incl. delimiters and newline (text:
+    byte strings only, they are fixed width), for tables whose data region is an exact multiple of the usual
+    block and buffer sizes."""
+    order = pick(r, ["<", ">"])
+    if form == "bin":
+        sets = [["i8"], ["f8"], ["i4", "f4"], ["i8", "f8"], ["i4", "i4", "f8"], ["i8", "f8", "S16"], ["u2", "i2", "f4"],
+                ["i8", "i8", "f8", "f8"], ["f8", "S8", "i4", "u4", "i8"]]
+        ts = pick(r, sets)
+        return [{"n": "p%d" % i, "t": t, "s": [], "o": order, "p": pick(r, ["edge", "wide", "simple"])} for i, t in enumerate(ts)]
+    m = pick(r, [3, 4, 5, 6])
+    nf = pick(r, [1, 2, 3]) if m > 3 else pick(r, [1, 2])
+    total = 2 ** m - nf                 # characters left for the strings: nf-1 delimiters and the newline are the rest
+    ws = []
+    for i in range(nf - 1):
+        w = r.randrange(1, max(2, min(12, total - (nf - 1 - i)) + 1))
+        ws.append(w)
+        total -= w
+    ws.append(total)
+    if any(w < 1 or w > 60 for w in ws):
+        ws = [2 ** m - 1]
+    return [{"n": "s%d" % i, "t": "S%d" % w, "s": [], "o": order, "p": "simple"} for i, w in enumerate(ws)]
 
 
 def recipe_dtype(fields, native=False):
